@@ -63,6 +63,16 @@ example : WrapInline [fld "a" [fld "b" [fld "c"], fld "c"]] [fld "a" [.inline {}
 example : WrapSpread "F" [fld "a" [fld "c"]] [fld "a" [fld "c"], fld "d"] [.spread "F" {}, fld "d"] :=
   .here [] [fld "d"]
 
+/-- `wrap_spread_ge` instantiated: `{ a { c } d }` → `{ ...F d }  fragment F { a { c } }` (all hypotheses hold) -/
+example : ∃ d d', depthFixed (one [fld "a" [fld "c"], fld "d"]).fuel (anon [fld "a" [fld "c"], fld "d"]) [] [] = .ok d ∧
+    depthFixed (Doc.fuel ⟨[anon [.spread "F" {}, fld "d"]], [⟨"F", [fld "a" [fld "c"]]⟩]⟩)
+      ⟨none, [.spread "F" {}, fld "d"]⟩ [⟨"F", [fld "a" [fld "c"]]⟩] [] = .ok d' ∧ d ≤ d' ∧
+    d' = depth (one [fld "a" [fld "c"], fld "d"]) [] (anon [fld "a" [fld "c"], fld "d"]) :=
+  wrap_spread_ge (one [fld "a" [fld "c"], fld "d"]) ⟨[anon [.spread "F" {}, fld "d"]], [⟨"F", [fld "a" [fld "c"]]⟩]⟩ []
+    (valid_of_checks _ _ (by decide) (by decide) (by decide)) (anon [fld "a" [fld "c"], fld "d"]) (by simp [one])
+    "F" [fld "a" [fld "c"]] [.spread "F" {}, fld "d"] (.here [] [fld "d"]) rfl
+    (by intro f hf; cases hf) (by intro f hf; cases hf) (by decide) (by simp [anon])
+
 /-! ### refutations on the unchanged rule (defect Q1) -/
 
 /-- the full statements, for an arbitrary implementation `r` of the rule -/
